@@ -13,6 +13,7 @@ import (
 	"strings"
 	"sync"
 	"sync/atomic"
+	"syscall"
 	"time"
 
 	"github.com/openebs/jiva/backend/remote"
@@ -302,6 +303,11 @@ func (x nodeIOs) pre(op string) error {
 	if cl.failIO[x.b.node] {
 		cl.failedBE[x.b.seq] = true
 		cl.opFailed[x.b.node] = true
+		if cl.cfg.ViaRPC {
+			// behind the real rpc server the failure is what a replica's disk produces when it is full: the error class
+			// travels through the server's reply construction
+			return &os.PathError{Op: "write", Path: fmt.Sprintf("/node%d/volume-head.img", x.b.node), Err: syscall.ENOSPC}
+		}
 		return fmt.Errorf("injected I/O failure on node %d", x.b.node)
 	}
 	cl.calls = append(cl.calls, call{x.b.seq, x.b.node, op})
